@@ -14,6 +14,8 @@ pub struct Ctx {
     pub started: Instant,
     pub budget_s: f64,
     inner: Mutex<Inner>,
+    /// (time of the last heartbeat, what was starting then); see `watch_stalls`
+    heartbeat: Mutex<(Instant, String)>,
 }
 
 #[derive(Clone, Copy, PartialEq, Eq, Debug)]
@@ -53,7 +55,40 @@ impl Ctx {
             started: Instant::now(),
             budget_s: 0.0,
             inner: Mutex::new(Inner::default()),
+            heartbeat: Mutex::new((Instant::now(), String::from("start"))),
         }
+    }
+
+    /// A scenario (or a phase of one) begins: the stall watchdog counts from here.
+    pub fn beat(&self, label: &str) {
+        *self.heartbeat.lock().unwrap() = (Instant::now(), label.to_string());
+    }
+
+    /// Observer outside the async runtime: a plain thread that reports a violation and ends the process when
+    /// no heartbeat arrived for `limit`. The in-runtime watchdogs of the checks cannot fire when the runtime's
+    /// own thread is blocked (a lock held across an await, a blocking call): then only this thread can tell.
+    /// `limit` must be far above anything a scenario can legitimately take (they are bounded by timeouts).
+    pub fn watch_stalls(&'static self, sig_prefix: &'static str, limit: std::time::Duration) {
+        self.beat("start");
+        std::thread::Builder::new()
+            .name("stall-watchdog".into())
+            .spawn(move || loop {
+                std::thread::sleep(std::time::Duration::from_millis(500));
+                let (at, label) = self.heartbeat.lock().unwrap().clone();
+                if at.elapsed() > limit {
+                    let class: String = label.split('/').next().unwrap_or("").to_string();
+                    self.viol(
+                        &format!("{}:{}", sig_prefix, class),
+                        "the workload made no progress at all: the runtime is blocked (every operation in flight is bounded by a timeout far below this limit)",
+                        json!({"last_heartbeat": label, "seconds_without_progress": at.elapsed().as_secs(), "limit_s": limit.as_secs()}),
+                    );
+                    println!("RESULT {}", self.finish());
+                    use std::io::Write;
+                    let _ = std::io::stdout().flush();
+                    std::process::exit(0);
+                }
+            })
+            .expect("spawn stall watchdog");
     }
 
     pub fn quick(&self) -> bool {
